@@ -7,6 +7,7 @@ export GOFLAGS=-mod=mod GOPROXY=off GOSUMDB=off GOTOOLCHAIN=local
 wt=/var/tmp/trypatch-wt-$$
 OUT=/var/tmp/trypatch-out-$$
 git -C /repo worktree add -q --detach "$wt" HEAD || exit 2
+cp /verif/expected_obligations.json "$wt/.verif_expected.json"  # the baseline that belongs to this commit
 trap 'git -C /repo worktree remove --force "$wt" >/dev/null 2>&1; [ -z "${KEEP_OUT:-}" ] && rm -rf "$OUT"' EXIT
 ( cd "$wt" && git apply "$D" ) || { echo "apply failed"; exit 2; }
 mkdir -p "$OUT"
